@@ -17,6 +17,7 @@ import json
 import logging
 import math
 import random
+from concurrent.futures import ThreadPoolExecutor
 from fractions import Fraction
 from urllib.parse import urlencode
 
@@ -67,6 +68,10 @@ def pick_inverse(c, rnd):
     g = c["geom"]
     lat1 = s1 * rnd.uniform(0.5, 80.0)
     lon1 = sw * rnd.uniform(0.5, 175.0)
+    if rnd.random() < 0.15:                       # angles between -1 and +1 degree (sign carried by "-0.")
+        lat1 = s1 * rnd.uniform(0.01, 0.99)
+    if rnd.random() < 0.15:
+        lon1 = sw * rnd.uniform(0.01, 0.99)
     if g == "near":
         lat2 = lat1 + rnd.choice((-1, 1)) * rnd.uniform(1e-4, 0.4)
         lon2 = lon1 + rnd.choice((-1, 1)) * rnd.uniform(1e-4, 0.4)
@@ -112,6 +117,10 @@ def pick_direct(c, rnd):
     sw = -1.0 if c["w1"] == "W" else 1.0
     lat1 = s1 * rnd.choice((rnd.uniform(0.5, 30.0), rnd.uniform(30.0, 60.0), rnd.uniform(60.0, 85.0)))
     lon1 = sw * rnd.uniform(0.5, 179.0)
+    if rnd.random() < 0.15:
+        lat1 = s1 * rnd.uniform(0.01, 0.99)
+    if rnd.random() < 0.15:
+        lon1 = sw * rnd.uniform(0.01, 0.99)
     az = {"c0": 0.0, "c90": 90.0, "c180": 180.0, "c270": 270.0, "c360": 360.0}.get(c["az"])
     if az is None:
         q = int(c["az"][1]) - 1
@@ -153,7 +162,7 @@ def build_request(req, rnd, k):
     ep = rq["ep"]
     vals = pick_inverse(c, rnd) if ep == "vincinv" else pick_direct(c, rnd)
     hp_in = any(op == "hp2dec" for (_, op) in plan_in)
-    nd = rnd.choice((0, 1, 2, 3, 5, 6))
+    nd = rnd.choice((0, 1, 2, 3, 5, 6, 9))
     shorten = (not hp_in) and (k % 2 == 1 or rnd.random() < 0.25)
     toks = {}
     for (f, op) in plan_in:
@@ -222,7 +231,7 @@ class Runner:
         return wrapper
 
     def run_request(self, rq):
-        ep, pairs = rq["ep"], rq["pairs"]
+        ep, pairs = rq["ep"], [tuple(p) for p in rq["pairs"]]
         query = dict(pairs)
         ev = [{"a": "Receive", "url": "/" + ep + "?" + urlencode(pairs)}]
         # Parse (alpha: token -> number)
@@ -369,18 +378,14 @@ def run(ctx):
     rnd = random.Random(ctx.seed)
     quick = ctx.tier == "quick"
     # 1. the model: tables and pipeline, exhaustively, every invariant, every action taken
-    r = tlc.run_tlc("MC_Api", "MC_Api.cfg", workers=4, coverage=True, timeout=900)
-    ctx.add_tlc(r, "MC_Api exhaustive")
-    if r.violated:
-        raise tlc.MachineryError("Api model violates its own invariant %s\n%s" % (r.violated, r.out[-2000:]))
-    idle = [a for a in MODEL_ACTIONS if r.coverage.get(a, (0, 0))[1] == 0]
-    if idle:
-        raise tlc.MachineryError("Api model: action(s) never taken: %s" % idle)
+    #    (runs beside steps 2-3; joined before anything is decided)
+    pool = ThreadPoolExecutor(max_workers=1)
+    mc = pool.submit(tlc.run_tlc, "MC_Api", "MC_Api.cfg", workers=4, coverage=True, timeout=900)
     # 2. requests out of TLC
     reqs, nidx = requests_from_tlc(ctx, quick)
     if not reqs or nidx != 1:
         raise tlc.MachineryError("request generation produced %d requests, %d index" % (len(reqs), nidx))
-    K = 1 if quick else 2
+    K = 1 if quick else 3
     # 3. the real application
     R = Runner()
     rqs, traces = [], []
@@ -414,6 +419,14 @@ def run(ctx):
     ctx.extra["calls_recorded_by_wrapper"] = sum(1 for t in traces if t["kind"] == "req" and t["ev"][3]["rec"] == 1)
     if ood * 20 > len(traces):
         raise tlc.MachineryError("%d of %d generated requests are outside the library's domain" % (ood, len(traces)))
+    r = mc.result()
+    pool.shutdown()
+    ctx.add_tlc(r, "MC_Api exhaustive")
+    if r.violated:
+        raise tlc.MachineryError("Api model violates its own invariant %s\n%s" % (r.violated, r.out[-2000:]))
+    idle = [a for a in MODEL_ACTIONS if r.coverage.get(a, (0, 0))[1] == 0]
+    if idle:
+        raise tlc.MachineryError("Api model: action(s) never taken: %s" % idle)
     # 4. TLC decides
     fails = validate(traces, ctx, "Trace_Api")
     report(traces, rqs, fails, ctx)
@@ -423,7 +436,7 @@ def run(ctx):
                 "x class of numbers (vincinv: hemisphere x side x 9 geometries incl. meridian/parallel/equator/+-180/"
                 "coincident/polar; vincdir: hemisphere x side x 9 azimuth classes incl. cardinals and 360 x 4 distance "
                 "bands up to 2e7 m) x query syntax (%s) enumerated by TLC from Api.tla, %d seeded sample(s) each, HP inputs "
-                "built from integer deg/min/sec + 0..6 decimals, four distinct coordinates; plus GET /; distinct = distinct "
+                "built from integer deg/min/sec + 0..9 decimals of a second, four distinct coordinates; plus GET /; distinct = distinct "
                 "URLs outside the repository tests' case (dms/dms, southern-eastern short line)"
                 % ("one of 4 format x order combinations per class, all met by every geometry" if quick else "3 number formats x 3 field orders", K))
     ctx.exhaustive = False
